@@ -3,7 +3,7 @@
     self-redirect skip, proxy/http_proxy.go redirect branch).  Statements, [exact],
     [Print Assumptions] only. *)
 From Coq Require Import String List NArith ZArith.
-From Fabio Require Import Lib.Outcome Lib.Bytes Model.Redirect Model.RedirectSpec Proofs.Redirect.
+From Fabio Require Import Lib.Outcome Lib.Bytes Model.Redirect Model.RedirectSpec Model.RedirectTag Proofs.Redirect Proofs.RedirectTag.
 Import ListNotations.
 Local Open Scope N_scope.
 
@@ -232,3 +232,102 @@ Theorem C13_redirect_cross_talk_refuted :
        = [(1%nat, RRedirect 301%Z (bs "https://foo.com/from-B")); (0%nat, RRedirect 301%Z (bs "https://foo.com/from-B"))].
 Proof. exact redirect_cross_talk_refuted. Qed.
 Print Assumptions C13_redirect_cross_talk_refuted.
+
+(* ONLY a redirect that points back at the request is skipped (round 5): whatever Lookup passes
+   over before the answering host is an absent route or a redirect whose Location is the
+   request's own URL in the independent reading [points_back_norm] (same scheme, same host up
+   to letter case and default port, the SAME path byte for byte); the post part starts with
+   the candidate that answers.  Together with C13_self_test_sound this bounds the skip from
+   both sides. *)
+Theorem C13_only_self_redirects_skipped : forall q cands,
+  exists pre post, cands = pre ++ post /\ Forall (passed_over q) pre
+    /\ match post with
+       | [] => lookup q cands = None
+       | Some t :: _ => exists ou, lookup q cands = Some (t, ou)
+       | None :: _ => False
+       end.
+Proof. exact only_self_redirects_skipped. Qed.
+Print Assumptions C13_only_self_redirects_skipped.
+(* hence a redirect whose Location differs from the request's URL in the path - be it only in
+   letter case: the canonical-lower-case redirect /Docs -> /docs - is answered, not skipped *)
+Theorem C13_path_differs_not_skipped : forall q t rest,
+  is_redirect t = true -> u_path (build_redirect_url t q) <> q_path q ->
+  lookup q (Some t :: rest) = Some (t, Some (build_redirect_url t q))
+  /\ (code_ok (t_code t) = true ->
+      handle q (Some t :: rest) = RRedirect (t_code t) (hex_escape_non_ascii (url_string (build_redirect_url t q)))
+      /\ upstream_calls (handle q (Some t :: rest)) = O).
+Proof. exact path_differs_not_skipped. Qed.
+Print Assumptions C13_path_differs_not_skipped.
+Theorem C13_case_variant_not_skipped : forall q t rest,
+  is_redirect t = true -> case_variant (u_path (build_redirect_url t q)) (q_path q) = true ->
+  lookup q (Some t :: rest) = Some (t, Some (build_redirect_url t q)).
+Proof. exact case_variant_not_skipped. Qed.
+Print Assumptions C13_case_variant_not_skipped.
+Theorem C13_case_variant_nonvacuous :
+  case_variant (u_path (build_redirect_url t_docs (q_ex "/Docs"))) (q_path (q_ex "/Docs")) = true
+  /\ handle (q_ex "/Docs") [Some t_docs; Some (upstream_target 1)] = RRedirect 301%Z (bs "http://example.com/docs")
+  /\ case_variant (u_path (build_redirect_url t_api (q_ex "/API/v1/users"))) (q_path (q_ex "/API/v1/users")) = true
+  /\ handle (q_ex "/API/v1/users") [Some t_api; Some (upstream_target 1)] = RRedirect 308%Z (bs "http://example.com/api/v1/users")
+  /\ handle (q_ex "/docs") [Some t_docs; Some (upstream_target 1)] = RProxy 1.
+Proof. exact case_variant_nonvacuous. Qed.
+Print Assumptions C13_case_variant_nonvacuous.
+
+(* REDIRECT ROUTES REGISTERED THROUGH A CONSUL TAG (round 5; registry/consul/routecmd.go).
+   [tag_written] / [split_template] / [tag_target] (Model/RedirectTag.v) are an independent
+   specification of "the template, the code and the path options written in the tag"; they
+   are not a model of routecmd.build.  For EVERY tag of the documented shape
+     <prefix><src> redirect=<code>,<template> [further option fields]
+   (no blank inside prefix, src, code, template and the fields; no comma in code and template)
+   the reading gives back src, code and the template byte for byte - $path and $host included,
+   nothing is expanded - and strip= / prepend= of the further fields *)
+Theorem C13_tag_written_documented : forall prefix src code tmpl more,
+  no_blank prefix = true -> word src ->
+  no_blank code = true -> no_comma code = true -> no_blank tmpl = true -> no_comma tmpl = true ->
+  Forall word more ->
+  tag_written prefix (prefix ++ src ++ 32 :: join ((k_redirect ++ code ++ 44 :: tmpl) :: more) [32])
+  = Some (mkWritten src code tmpl (opt_value k_strip more) (opt_value k_prepend more)).
+Proof. exact tag_written_documented. Qed.
+Print Assumptions C13_tag_written_documented.
+(* the template text scheme://host[/path][?query] is cut into exactly these four parts *)
+Theorem C13_split_template_render : forall sc host path qy,
+  scheme_text_ok sc = true -> host <> [] -> host_text_ok host = true -> path_text_ok path = true ->
+  query_text_ok qy = true ->
+  split_template (sc ++ v_css ++ host ++ path ++ qs qy) = Some (sc, host, path, qy).
+Proof. exact split_template_render. Qed.
+Print Assumptions C13_split_template_render.
+Theorem C13_tag_target_documented : forall id prefix src code tmpl more sc h p qy,
+  no_blank prefix = true -> word src ->
+  no_blank code = true -> no_comma code = true -> no_blank tmpl = true -> no_comma tmpl = true ->
+  Forall word more ->
+  split_template tmpl = Some (sc, h, p, qy) ->
+  tag_target id prefix (tag_text prefix src code tmpl more)
+  = Some (mkTarget id sc h p qy (opt_value k_strip more) (opt_value k_prepend more) (redirect_code code)).
+Proof. exact tag_target_documented. Qed.
+Print Assumptions C13_tag_target_documented.
+(* from the tag to the response: a request answered by the route of such a tag receives the
+   3xx code the tag's code text denotes and [expected_location] of the template AS WRITTEN IN
+   THE TAG for this request; no upstream is called *)
+Theorem C13_consul_tag_response : forall id prefix src code tmpl more sc h p qy q cands ou wire t,
+  no_blank prefix = true -> word src ->
+  no_blank code = true -> no_comma code = true -> no_blank tmpl = true -> no_comma tmpl = true ->
+  Forall word more ->
+  split_template tmpl = Some (sc, h, p, qy) ->
+  t = mkTarget id sc h p qy (opt_value k_strip more) (opt_value k_prepend more) (redirect_code code) ->
+  lookup q cands = Some (t, ou) -> is_redirect t = true ->
+  tmpl_dom t = true -> req_dom t wire q = true -> set_path wire = Some (q_path q, q_rawpath q) ->
+  tag_target id prefix (tag_text prefix src code tmpl more) = Some t
+  /\ handle q cands = RRedirect (redirect_code code) (expected_location t wire q)
+  /\ (300 <= redirect_code code <= 399)%Z /\ upstream_calls (handle q cands) = O.
+Proof. exact consul_tag_response. Qed.
+Print Assumptions C13_consul_tag_response.
+Theorem C13_consul_tag_nonvacuous :
+  ex_tag = tag_text ex_prefix (bs "/path") (bs "303") (bs "https://www.foo.com$path") []
+  /\ split_template (bs "https://www.foo.com$path") = Some (bs "https", bs "www.foo.com$path", [], [])
+  /\ tag_target 0 ex_prefix ex_tag = Some ex_tag_target
+  /\ tmpl_dom ex_tag_target = true /\ req_dom ex_tag_target (bs "/path/a/b") ex_tag_req = true
+  /\ handle ex_tag_req [Some ex_tag_target; Some (upstream_target 1)] = RRedirect 303%Z (bs "https://www.foo.com/path/a/b?x=1")
+  /\ tag_target 0 ex_prefix ex_tag_strip
+     = Some (mkTarget 0 (bs "https") (bs "$host") (bs "/new/$path") (bs "v=2") (bs "/old") [] 308%Z)
+  /\ tag_target 0 ex_prefix (bs "urlprefix-/plain") = None.
+Proof. exact consul_tag_nonvacuous. Qed.
+Print Assumptions C13_consul_tag_nonvacuous.
